@@ -162,6 +162,8 @@ class Progress:
         self.bodies = {b.path: b for b in facts.lib_bodies(crates)}
         self.regex_cache = {}
         self.ret_cache = {}
+        self.ret_facts = {}
+        self.LE = []
         self.mono_cache = {}
         self.inprogress = set()
         self.hyp = {}
@@ -258,14 +260,91 @@ class Progress:
             if not ovf:
                 ok = True
                 base = self.base_of(body, l)
+                saved = getattr(self, 'cur_conds', ())
                 for p in cyc:
                     fin = p.env.get((l, ()), base)
                     self.set_conds(p.conds)
                     if self.rel(fin, base, body) == UNK:
                         ok = False
                         break
+                self.set_conds(saved)      # the caller's path conditions are in force again
         self.mono_cache[key] = ok
         return ok
+
+    def rel_widened_option(self, wt, base, body, depth):
+        """Some-payload of a loop-carried Option<usize>: wt = ('widen', fpath, h, l, prev, ((c, prev_c), ..)).  Either the value it had
+        before the loop, or a value stored in the loop; the latter is bounded below by a monotone usize cursor c of the same loop
+        (payload >= c at the start of the storing iteration >= c on entry)."""
+        fpath, h, l, prev, ctx = wt[1:6]
+        out = None
+        if prev[0] == 'variant' and prev[3] == 'Some' and prev[4]:
+            out = self.rel(prev[4][0], base, body, depth + 1)
+            if out == UNK:
+                return UNK
+        elif not (prev[0] == 'variant' and prev[3] == 'None'):
+            return UNK
+        bound = self.option_payload_bound(fpath, h, l)
+        if bound is None:
+            return UNK
+        if bound == 'never-set':
+            return out if out is not None else GT       # no Some is ever stored: the payload does not exist
+        c, r = bound
+        pc = dict(ctx).get(c)
+        if pc is None:
+            return UNK
+        rb = self.rel(pc, base, body, depth + 1)
+        if rb == UNK:
+            return UNK
+        here = compose(rb, r)
+        return here if out is None else join(out, here)
+
+    def option_payload_bound(self, fpath, h, l):
+        key = ('opt', fpath, h, l)
+        if key in self.mono_cache:
+            return self.mono_cache[key]
+        self.mono_cache[key] = None
+        fb = self.bodies.get(fpath)
+        res = None
+        if fb is not None and h in fb.loops():
+            saved = getattr(self, 'cur_conds', ())
+            try:
+                w = self.walker(fb, h)
+                L = fb.loops()[h]
+                ps = w.run(h, stop=lambda x: x not in L)
+                if not w.overflow:
+                    base_l = self.base_of(fb, l)
+                    stores = []
+                    ok = True
+                    for p in ps:
+                        fin = p.env.get((l, ()), base_l)
+                        if fin == base_l:
+                            continue
+                        if fin[0] == 'variant' and fin[3] == 'None':
+                            continue
+                        if fin[0] == 'variant' and fin[3] == 'Some' and fin[4]:
+                            stores.append((p, fin[4][0]))
+                        else:
+                            ok = False
+                    if ok and not stores:
+                        res = 'never-set'
+                    elif ok:
+                        for c in sorted(x for x in self.loop_assigned(fb, h) if fb.lty(x) == 'usize'):
+                            if not self.monotone(fpath, h, c):
+                                continue
+                            worst = None
+                            for p, v in stores:
+                                self.set_conds(p.conds)
+                                r = self.rel(v, self.base_of(fb, c), fb)
+                                worst = r if worst is None else join(worst, r)
+                                if worst == UNK:
+                                    break
+                            if worst in (GE, GT, EQ):
+                                res = (c, GE if worst == EQ else worst)
+                                break
+            finally:
+                self.set_conds(saved)
+        self.mono_cache[key] = res
+        return res
 
     def set_conds(self, conds):
         """path conditions of the cycle being analysed (used by conditional facts)"""
@@ -360,6 +439,9 @@ class Progress:
         if t[0] == 'field' and t[1][0] == 'downcast' and t[1][1][0] == 'call' and strip_generics(t[1][1][1]).split('::')[-1] in ('find', 'rfind', 'position', 'rposition') \
                 and t[1][1][1].startswith(('core::str::', 'core::iter::', 'core::slice::')):
             return 'nonneg'     # the usize payload of a std search result
+        if t[0] == 'field' and t[2] == 0 and t[1][0] == 'field' and t[1][1][0] == 'downcast' and t[1][1][1][0] == 'call' \
+                and strip_generics(t[1][1][1][1]).split('::')[-1] == 'next' and ('CharIndices' in t[1][1][1][1] or 'Enumerate' in t[1][1][1][1]):
+            return 'nonneg'     # the position half of a (position, item) pair
         return None
 
     def sign_closure(self, clo, opt, body):
@@ -481,7 +563,7 @@ class Progress:
             return UNK
         if t == base:
             return EQ
-        memo = not self.hyp
+        memo = not self.hyp and not self.LE
         if memo:
             key = (t, base, self.cond_key)
             if key in self.rel_cache:
@@ -497,7 +579,7 @@ class Progress:
                         r = GT
                     elif self.rel(v, base, body, depth + 100) != UNK and self.rel_(t, v, body, depth + 100) in (GE, GT):
                         r = GT
-        if memo and not self.hyp:
+        if memo and not self.hyp and not self.LE:
             self.rel_cache[key] = r
         return r
 
@@ -528,11 +610,22 @@ class Progress:
                     best = GT
             if best != UNK:
                 return best
+        if k == 'call' and strip_generics(t[1]).split('::')[-1] == 'len' and self.LE and t[2]:
+            # x <= len(S) is known on the callee's return path (S[x..] was taken): len(S) is at least whatever x is at least
+            S0 = strip_ref(t[2][0])
+            for facts in self.LE:
+                for x, S in facts:
+                    if S == S0:
+                        rx = self.rel(x, base, body, depth + 1)
+                        if rx != UNK:
+                            return max(rx, GE) if rx != EQ else GE
         if k == 'call' and strip_generics(t[1]).split('::')[-1] == 'len' and getattr(self, 'LT', None):
             # a comparison on this path found X < len: the length exceeds whatever X is at least
             for x, lent in self.LT:
                 if lent == t and self.rel(x, base, body, depth + 1) != UNK:
                     return GT
+        if k == 'field' and t[1][0] == 'downcast' and t[1][2] == 1 and t[1][1][0] == 'widen' and len(t[1][1]) > 5:
+            return self.rel_widened_option(t[1][1], base, body, depth)
         if k == 'widen':
             # ('widen', fpath, h, l, prev)
             if self.monotone(t[1], t[2], t[3]):
@@ -648,7 +741,15 @@ class Progress:
         worst = None
         for c in comps:
             ct = self.subst(c, amap)
-            r = self.rel(ct, base, body, depth + 1)
+            facts = self.ret_facts.get((fb.path, tuple(steps), c))
+            if facts:
+                self.LE.append({(self.subst(x, amap), strip_ref(self.subst(S, amap))) for x, S in facts})
+                try:
+                    r = self.rel(ct, base, body, depth + 1)
+                finally:
+                    self.LE.pop()
+            else:
+                r = self.rel(ct, base, body, depth + 1)
             worst = r if worst is None else join(worst, r)
             if worst == UNK:
                 break
@@ -810,6 +911,14 @@ class Progress:
                     continue
                 # a return value that is itself opaque w.r.t. the requested variant stays as projection term
                 comps.append(c)
+                # facts established by the path itself: a slice `S[x..]` that did not panic means x <= len(S)
+                le = set()
+                for e in p.events:
+                    if e[0] == 'call' and e[2] and e[2]['name'] == 'index' and len(e[3]) == 2 and e[3][1][0] == 'variant' and e[3][1][3] in ('RangeFrom', 'Range') \
+                            and ('str' in (e[2].get('self_ty') or '') or (e[2].get('self_ty') or '').startswith('[')):
+                        le.add((e[3][1][4][0], strip_ref(e[3][0])))
+                fk = (fb.path, steps, c)
+                self.ret_facts[fk] = (self.ret_facts[fk] & frozenset(le)) if fk in self.ret_facts else frozenset(le)
             # dedupe
             seen, out = set(), []
             for c in comps:
